@@ -243,6 +243,8 @@ impl Handler {
         key: Arc<RwLock<CombinedKey>>,
         config: Config,
     ) -> Result<HandlerReturn, std::io::Error> {
+        #[cfg(feature = "verif-hooks")]
+        crate::verif::glue::seen("handler", &config);
         let (exit_sender, exit) = oneshot::channel();
         // create the channels to send/receive messages from the application
         let (handler_send, service_recv) = mpsc::unbounded_channel();
